@@ -186,7 +186,7 @@ Definition fstep (ip : bool) (o : hop) (f : fstate) : res fstate :=
       do m' <- mstep ip o (fmesh f);
       let sh := if k_odd k then hswap a b 0%Z (fashape f) else fashape f in
       let vs := if k_odd k then hswap a b 0%Z (fvshape f) else fvshape f in
-      (* both forms hand the turned arrays to _as_array, which insists on (*n, nvdim) *)
+      (* both forms hand the turned arrays to _as_array, which insists on the shape n ++ [nvdim] *)
       if zlist_eqb sh (n m' ++ [fnvdim f]) && zlist_eqb vs (n m')
       then OK (mkF m' (fnvdim f) (frmap f) sh vs) else Err ValueE
   | _ =>
